@@ -14,7 +14,10 @@ point the explorer decides which enabled task runs next:
 * ``Queue.put`` needs a free slot of the bounded semaphore, ``get`` a visible
   item, ``join``/a successful wait a dead child;
 * items travel through pickle; an unpicklable item is dropped, exactly as the
-  feeder thread of a real multiprocessing.Queue does;
+  feeder thread of a real multiprocessing.Queue does; the feeder pickles
+  AFTER put() has returned: by default at once, as a deviation (cost 1) only
+  when the item is flushed - a producer that reuses the object it has put sees
+  its later changes travel instead;
 * feeder-thread delay is modelled at the reader: when a task polls a queue
   (``empty``/``get``/``qsize``) the explorer may hold back the newest k items
   of each still-running producer (cost 1); a producer's exit flushes its
@@ -325,7 +328,7 @@ class FakeQueue:
     def __init__(self, sched, maxsize=0):
         self.sched = sched
         self.maxsize = maxsize
-        self.visible = []          # (seq, producer task, payload bytes)
+        self.visible = []          # [seq, producer task, payload bytes, None]
         self.held = []             # put but not yet visible to readers
         self.in_flight = 0         # put and not yet got (the semaphore)
         self.seq = 0
@@ -346,30 +349,53 @@ class FakeQueue:
                 (lambda: self.in_flight < self.maxsize)
                 if self.maxsize > 0 else None)
         self.in_flight += 1
-        try:
-            payload = pickle.dumps(obj)
-        except Exception:
-            # the feeder thread prints the error and drops the item; the
-            # semaphore slot is released by the feeder as well
-            self.dropped += 1
-            self.in_flight -= 1
+        # The feeder thread of a real multiprocessing.Queue pickles the object
+        # some time after put() returned. Default: at once. Deviation (cost
+        # 1): only when the item is flushed to the readers - whatever the
+        # producer has done to the object in between is what arrives.
+        late = 0
+        if s.delays:
+            late = s.ctx.choose(2, label="put:q%d pickled at flush" % self.qid,
+                                default=0, cost=1)
+            if late:
+                s.delays_used += 1
+        self.seq += 1
+        item = [self.seq, s.current, None, obj]
+        if not late and not self._pickle(item):
             s.bump()
             return
-        self.seq += 1
-        self.held.append((self.seq, s.current, payload))
+        self.held.append(item)
         s.bump()
+
+    def _pickle(self, item):
+        """Serialises the object of an item; False if it cannot be pickled
+        (the feeder thread prints the error, drops the item and releases the
+        semaphore slot)."""
+        if item[2] is not None:
+            return True
+        try:
+            item[2] = pickle.dumps(item[3])
+        except Exception:
+            self.dropped += 1
+            self.in_flight -= 1
+            return False
+        item[3] = None
+        return True
+
+    def _show(self, items):
+        """Items become visible to readers (pickled now at the latest)."""
+        self.visible.extend(i for i in items if self._pickle(i))
+        self.visible.sort(key=lambda h: h[0])
 
     def producer_exit(self, task):
         mine = [h for h in self.held if h[1] is task]
         if mine:
             self.held = [h for h in self.held if h[1] is not task]
-            self.visible.extend(mine)
-            self.visible.sort(key=lambda h: h[0])
+            self._show(mine)
 
     def release_held(self):
-        self.visible.extend(self.held)
-        self.held = []
-        self.visible.sort(key=lambda h: h[0])
+        held, self.held = self.held, []
+        self._show(held)
 
     # ---- consumer side
     def _poll(self, label):
@@ -393,8 +419,7 @@ class FakeQueue:
             if release:
                 for h in release:
                     self.held.remove(h)
-                self.visible.extend(release)
-                self.visible.sort(key=lambda h: h[0])
+                self._show(release)
                 s.bump()
 
     def empty(self):
@@ -417,10 +442,10 @@ class FakeQueue:
                 # a blocked reader sees the items as soon as they are flushed
                 self.release_held()
                 s.bump()
-                return True
+                return bool(self.visible)
             return False
         s.point("get:q%d" % self.qid, ready)
-        seq, producer, payload = self.visible.pop(0)
+        seq, producer, payload, _ = self.visible.pop(0)
         self.in_flight -= 1
         s.bump()
         return pickle.loads(payload)
